@@ -162,6 +162,17 @@ func runCheck(prop, tier string, verbose bool) int {
 	for _, k := range trustedRepo {
 		cfg.Assumptions = append(cfg.Assumptions, "assumed (unverified) contract of repository function "+k+" (opt trusted)")
 	}
+	if cfg.Discipline {
+		verified := map[string]bool{}
+		for _, r := range reps {
+			if r.Unverified == "" {
+				verified[r.Key] = true
+			}
+		}
+		dr := runDiscipline(s, prop, verified)
+		reps = append(reps, &FuncReport{Key: fmt.Sprintf("determinism discipline over %d repository functions (go/ssa scan)", dr.Functions), Obls: dr.Obls, Header: basePrelude})
+		cfg.NotDecided = append(cfg.NotDecided, dr.Notes...)
+	}
 	dir := filepath.Join(outDir(), "smt", prop)
 	os.RemoveAll(dir)
 	os.MkdirAll(dir, 0o755)
